@@ -457,6 +457,8 @@ func (index *PatternIndex) searchPairs(ctx *Context, pairs []piPair) (StringSet,
 				return nil, err
 			}
 			ids.AddAll(more)
+			// Patterns that end here (an empty map) match any map.
+			ids.AddAll(mi.Ids)
 			next = append(next, mi)
 		}
 
@@ -504,7 +506,14 @@ func (index *PatternIndex) searchPairs(ctx *Context, pairs []piPair) (StringSet,
 
 // SearchPatternsMap searchs the index for patterns that match the given fact (or event).
 func (index *PatternIndex) SearchPatternsMap(ctx *Context, fact map[string]interface{}) (StringSet, error) {
-	return index.searchPairs(ctx, mapToPairs(ctx, fact))
+	ids, err := index.searchPairs(ctx, mapToPairs(ctx, fact))
+	if err == nil && index.Ids != nil {
+		// Patterns that end at the root (the empty pattern, or one
+		// whose only values are empty arrays) are candidates for
+		// every event.
+		ids.AddAll(index.Ids)
+	}
+	return ids, err
 }
 
 // AddPatternJSON adds the given pattern (as a map) to the index.
